@@ -75,10 +75,15 @@ class HashSeedEngine(Engine):
                        "cluster_prediction.filter_results / filter_result_multiple",
                        "secmet Record.create_candidate_clusters / create_regions / to_biopython, serialiser.gather_record_areas",
                        "the whole antismash.main.run_antismash pipeline (hmm_detection with the shipped rule files, "
-                       "nrps_pks_domains, tta, serialiser, GenBank writers) in forked child processes",
+                       "nrps_pks_domains, sideloader, cluster_hmmer / full_hmmer / pfam2go, tigrfam, genefunctions (smCOG, resistance, "
+                       "extras, MITE), t2pks, terpene, rrefinder, tfbs_finder, tta, serialiser, GenBank writers) in forked "
+                       "child processes",
                        "CPython string hashing under K different PYTHONHASHSEED values (fresh interpreters)"]
     stub_components = ["hmmsearch / hmmscan -> in-process fakes returning the scenario's hit table",
-                       "memory layout -> Feature.__hash__ and fake HSP hash replaced by salted creation serials",
+                       "memory layout -> Feature.__hash__ and fake HSP hash replaced by salted creation serials; allocator state "
+                       "perturbed by the salt before each stage and at each fake tool call",
+                       "diamond -> in-process fake (MITE lookup); halogenase tool runs but never gets a hit; "
+                       "Pfam / TIGRFam / Resfams / MITE databases -> generated files in the scratch database directory",
                        "wall clock -> simulated clock", "database directory -> scratch directory",
                        "utils.get_hmm_lengths for the emptied NRPS/PKS profile file -> lengths from the scenario"]
     rule = ("one run = one generated scenario (tie-rich hit multisets for hmmscan refinement / hmmer overlap removal / "
@@ -101,9 +106,9 @@ class HashSeedEngine(Engine):
     def tier_config(self, prop: str, tier: str) -> Dict[str, Any]:
         if tier == "quick":
             return {"runs": 1600, "k": 8, "deadline_s": 600, "shrink_s": 90, "level": "exploration", "max_reports": 3,
-                    "pipeline_weight": 1.0, "expected_probes": EXPECTED_PROBES}
+                    "pipeline_weight": 3.0, "expected_probes": EXPECTED_PROBES}
         return {"runs": 24000, "k": 16, "deadline_s": 3400, "shrink_s": 300, "level": "exploration", "max_reports": 6,
-                "pipeline_weight": 1.5, "expected_probes": EXPECTED_PROBES}
+                "pipeline_weight": 3.0, "expected_probes": EXPECTED_PROBES}
 
     # ------------------------------------------------------------ generation
     def generate(self, rng, cfg: Dict[str, Any], prop: str) -> Dict[str, Any]:
@@ -399,7 +404,16 @@ class HashSeedEngine(Engine):
             if spanning and genes:
                 genes.append(spanning)
             records.append({"id": f"REC{r}", "seq": seq, "circular": circular, "genes": genes})
-            for _ in range(rng.randint(1, 4)):
+            quiet = rng.random() < 0.15
+            if quiet:
+                # a record on which no rule fires: lone profile hits only (its genes matter only inside sideloaded
+                # areas, as genes with hits outside of every protocluster)
+                for gene in rng.sample(genes, min(len(genes), rng.randint(2, 5))):
+                    hits.append({"cds": gene["name"], "profile": rng.choice(["PKS_KS", "Condensation", "t2ks", "LANC_like",
+                                                                             "PP-binding", "hglD"]),
+                                 "bitscore": rng.choice([600, 600, 800]), "evalue": 1e-30, "start": 1, "end": 60,
+                                 "qstart": 1, "qend": 60})
+            for _ in range(0 if quiet else rng.randint(1, 4)):
                 combo = rng.choice(combos)
                 targets = [rng.choice(genes)] if rng.random() < 0.6 else rng.sample(genes, min(len(genes), len(combo)))
                 for j, profile in enumerate(combo):
@@ -515,8 +529,13 @@ class HashSeedEngine(Engine):
             by_name = {gene["name"]: gene for record in records for gene in record["genes"]}
             for name in anchors:
                 aa = sum(e - b for b, e in by_name[name]["parts"]) // 3
-                for _ in range(rng.randint(1, 3)):
-                    profile = rng.choice(known)
+                chosen = [rng.choice(known) for _ in range(rng.randint(1, 3))]
+                if rng.random() < 0.5:
+                    # several subtypes of one main type on top of each other: one domain prediction with a list
+                    # of subtypes and merged reactions
+                    family = [p for p in known if p["type"] == rng.choice(known)["type"]]
+                    chosen = rng.sample(family, min(len(family), rng.randint(2, 3)))
+                for profile in chosen:
                     span = int(profile["length"] * 0.7)
                     start = rng.choice([2, 2, 12])
                     if start + span < aa:
@@ -579,6 +598,13 @@ class HashSeedEngine(Engine):
             markers = rng.sample(plain, min(len(plain), rng.randint(2, 4)))
             sideload_cli += ["--sideload-by-cds", ",".join(gene["name"] for gene in markers),
                              "--sideload-size-by-cds", str(rng.choice([0, 100, 300, 20000]))]
+            # lone profile hits on those genes: no rule fires, so they are reported as genes with hits outside
+            # of protoclusters (inside the sideloaded subregions)
+            for gene in markers:
+                if rng.random() < 0.6:
+                    hits.append({"cds": gene["name"], "profile": rng.choice(["PKS_KS", "Condensation", "t2ks", "LANC_like",
+                                                                             "PP-binding", "hglD"]),
+                                 "bitscore": 600, "evalue": 1e-30, "start": 1, "end": 60, "qstart": 1, "qend": 60})
         if plain and rng.random() < 0.15:
             record = rng.choice(records)
             own = [gene for gene in record["genes"] if len(gene["parts"]) == 1]
